@@ -226,7 +226,7 @@ func vBuildSync(N, R, K, opts int) *vSyncWorld {
 		pod.Status.Conditions = []v1.PodCondition{{Type: v1.PodReady, Status: v1.ConditionTrue}}
 		setPodRevision(pod, sw.upd.Name)
 		if opts&yHealthDims != 0 {
-			pod.Status.Phase = v1.PodPhase(sym.Str("phase", string(v1.PodPending), string(v1.PodRunning), string(v1.PodSucceeded), string(v1.PodFailed)))
+			pod.Status.Phase = v1.PodPhase(sym.Str("phase", string(v1.PodPending), string(v1.PodRunning), string(v1.PodSucceeded), string(v1.PodFailed), string(v1.PodUnknown)))
 			pod.Status.Conditions[0].Status = v1.ConditionStatus(sym.Str("ready", string(v1.ConditionTrue), string(v1.ConditionFalse)))
 			setPodRevision(pod, sym.Str("rev", sw.upd.Name, vSetName+"-other"))
 		}
